@@ -29,4 +29,8 @@ Record fenv := {
 Inductive dop :=
 | DCopy | DAdd | DSub | DMul | DNeg | DMatmul | DMatmulOuter | DPow | DAdjoint | DConj
 | DTranspose | DProject | DExpm | DLogm | DPermute | DTransform | DKron | DKronIdL
-| DKronTIdR | DKronT | DScaledId | DEvolved | DOther.
+| DKronTIdR | DKronT | DScaledId | DEvolved
+| DSymm          (* x + x^dagger *)
+| DSymmHalf      (* (x + x^dagger) * 0.5 *)
+| DSymmNormTr    (* h / tr h with h = x + x^dagger *)
+| DOther.
